@@ -1010,6 +1010,64 @@ def scan_max(b, cap=100000):
     return mx[0]
 
 
+def vlens_headers(rng, tier):
+    """header-only files (the validator and ncmpi_open read only the header; the data would be sparse) whose variables
+    sit around the per-format size limits 2^31-4 / 2^32-4 / 2^63-4 in every position: a too-large fixed-size variable
+    last / not last / followed by record variables, a too-large record variable that is the last record variable with
+    and without fixed-size variables after it, two too-large ones.  -> [(tag, bytes)]"""
+    out = []
+    for fmt in (1, 2, 5):
+        M = {1: (1 << 31) - 4, 2: (1 << 32) - 4, 5: (1 << 63) - 4}[fmt]
+        dmax = (1 << 63) - 1 if fmt == 5 else (1 << 31) - 1
+        # byte variables: 'L' just above the limit, 'E' exactly at the limit, 'S' small; lower case = record variable
+        def dims_for(n):
+            """dimension lengths whose product is n"""
+            if n <= dmax:
+                return [n]
+            for a in (2, 3, 4, 5, 7, 16, 65536):
+                if n % a == 0 and n // a <= dmax:
+                    return [a, n // a]
+            return [2, min(dmax, (n + 1) // 2)]
+        sizes = {'L': M + rng.choice([1, 2, 4, 5, 4096]), 'E': M - rng.choice([0, 0, 1, 3]), 'S': rng.choice([1, 3, 4, 10])}
+        if fmt == 2:
+            sizes['L'] = M + rng.choice([2, 4, 6, 4098])          # 2 x (2^31-1) is the largest two-dimensional byte shape
+        patterns = ['L', 'E', 'SL', 'LS', 'LL', 'EL', 'SE', 'Sl', 'lS', 'l', 'e', 'sl', 'ls', 'll', 'el', 'slS', 'lsS', 'Ll', 'lL', 'LSs', 'SsL', 'sS',
+                    'Sls', 'lSl', 'eS', 'lSS']
+        if tier != 'thorough':
+            patterns = patterns[:2] + rng.shuffle(patterns[2:])[:14] + ['slS', 'lS']
+        if fmt == 5:
+            # beyond 2^32 but far below 2^63: "large" for CDF-1/2 only, CDF-5 must accept in every position
+            sizes['B'] = (1 << 33) + rng.choice([0, 1, 12345])
+            patterns = patterns + [q.replace('L', 'B').replace('l', 'b') for q in patterns if 'L' in q or 'l' in q]
+        for pat in sorted(set(patterns)):
+            dims, vars_ = [(b't', 0)], []
+            for i, c in enumerate(pat):
+                n = sizes[c.upper()]
+                xt = 1
+                if c.upper() == 'S' and rng.chance(1, 3):
+                    xt = rng.choice([3, 4, 6])
+                ids = []
+                for dl in dims_for(n):
+                    dims.append((('d%d' % len(dims)).encode(), dl))
+                    ids.append(len(dims) - 1)
+                if c.islower():
+                    ids = [0] + ids
+                vars_.append(dict(name=('v%d' % i).encode(), dimids=ids, atts=[], xt=xt, vsize=0, begin=0, _n=n * XT_SIZE[xt], _rec=c.islower()))
+            h = Hdr(fmt, 0, dims, [], vars_)
+            hl = len(join(segments(h)))
+            pos = rnd4(hl)
+            for v in [v for v in vars_ if not v['_rec']] + [v for v in vars_ if v['_rec']]:
+                v['begin'] = pos
+                ln = rnd4(v['_n'])
+                v['vsize'] = (ln if ln < (1 << 62) else 0) if fmt == 5 else (ln if ln < (1 << 32) - 3 else (1 << 32) - 1)
+                pos += ln
+            hb = join(segments(h))
+            # sizes next to 2^63 overflow `long long` in the C (len rounding, begin + len): outside the model
+            overflow = fmt == 5 and any(c in 'LlEe' for c in pat)
+            out.append(('%d:%s%s' % (fmt, pat, ':overflow' if overflow else ''), hb + b'\0' * (rnd4(hl) - hl)))
+    return out
+
+
 SIG_VALIDATOR = {'truncated': 'validator-accepts-truncated-header', 'sign': 'validator-accepts-negative-field',
                  'foreign-tag-empty': 'validator-accepts-foreign-tag-on-empty-list',
                  'dimid-trunc64': 'validator-truncates-64bit-dimid'}
@@ -1357,6 +1415,51 @@ def _run(V, rng, tier, seed, tree, wd):
         distinct.add(('prog', p.text()))
 
     # =====================================================================================
+    # stream vlens: header-only files with variables around the per-format size limits (val_NC_check_vlens)
+    # =====================================================================================
+    vl = vlens_headers(rng, tier)
+    vl_prog = apigen.Prog('-', 1)
+    vl_steps = []
+    for i, (tag, hb) in enumerate(vl):
+        pth = save('vl_%d.nc' % i, hb)
+        vl_steps.append((vl_prog.all('open %s r -' % pth), vl_prog.all('close')))
+    # the same shapes created by the library itself (no data written: the files stay header-only / sparse)
+    vl_lib = []
+    for fmt in (1, 2):
+        for pat in (['lS', 'Sl', 'slS', 'SL', 'LS', 'l'] if thorough else ['lS', 'SL']):
+            pth = os.path.join(wd, 'vlib_%d_%s.nc' % (fmt, pat))
+            st = [vl_prog.all('create %s %d clobber -' % (pth, fmt)), vl_prog.all('def_dim t 0'), vl_prog.all('def_dim a 65536'),
+                  vl_prog.all('def_dim b %d' % (32768 if fmt == 1 else 65536)), vl_prog.all('def_dim c 3')]
+            for j, c in enumerate(pat):
+                dn = {'L': 'a b', 'l': 't a b', 'S': 'c', 's': 't c'}[c]
+                vl_prog.all('def_var v%d byte %d %s' % (j, len(dn.split()), dn))
+            e = vl_prog.all('enddef')
+            vl_prog.all('close')
+            vl_lib.append((fmt, pat, pth, e))
+    spv = save('vl_script.txt', vl_prog.text().encode())
+    rcv, implv, errv = apicmp.run_impl(apirun, spv, 1, wd, timeout=300, alarm=120)
+    resv = {}
+    for l in implv:
+        t = l.split()
+        if len(t) >= 4 and t[0].isdigit():
+            resv[int(t[0])] = t
+    vl_val = pmap(lambda i: run_validator(T, os.path.join(wd, 'vl_%d.nc' % i)), list(range(len(vl))), workers=12)
+    for i, (tag, hb) in enumerate(vl):
+        lean.ask(('VL', i), 'V ' + hexof(hb))
+    vl_libres = []
+    for fmt, pat, pth, e in vl_lib:
+        if e in resv and resv[e][3] == '0' and os.path.exists(pth):
+            hb = open(pth, 'rb').read()
+            try:
+                hl_ = decode(hb)[1]
+            except DecodeError:
+                continue
+            hb = hb[:rnd4(hl_) + 64]
+            vl_libres.append((fmt, pat, hb, run_validator(T, pth)))
+            lean.ask(('VLL', fmt, pat), 'V ' + hexof(hb))
+    log('[S4] stream vlens: %d header-only files around the size limits, %d created by the library (%.1fs)' % (len(vl), len(vl_libres), V.t.s()))
+
+    # =====================================================================================
     # stream bytes: header-violating variants
     # =====================================================================================
     log('[S4] stream prog done (%.1fs)' % V.t.s())
@@ -1470,6 +1573,37 @@ def _run(V, rng, tier, seed, tree, wd):
         a = ans.get(('D', k, 'rt'))
         if a is not None and a.split()[1:] != ['0,0', '0,0', '1']:
             ties.append(('roundtrip', 'regenerated file of %s: model says %s, tools say equal' % (k, a)))
+    # size-limit headers: validator vs model vs ncmpi_open
+    for i, (tag, hb) in enumerate(vl):
+        rc, classes, txt = vl_val[i]
+        t = ans[('VL', i)].split()
+        so = resv.get(vl_steps[i][0])
+        lib_ok = (so is not None and so[3] == '0')
+        evals[0] += 2
+        count('vlens ' + ('accepted' if rc == 0 else 'rejected'))
+        distinct.add(('vlens', hb))
+        replay = dict(pattern=tag, file_hex=hb.hex(), validator_exit=rc, validator_output=txt[-400:], model=t[1],
+                      ncmpi_open=(so[3] if so else None), note='pattern: L/E/S = byte variable above / at / below the size limit of the format, lower case = record variable')
+        if lib_ok and rc != 0:
+            fail('validator-rejects-file-the-library-opens:vlens', 'ncvalidator rejects a header (variable sizes around the format limit, pattern %s) that ncmpi_open accepts' % tag, replay)
+        if tag.endswith(':overflow'):
+            count('vlens next to 2^63 (signed overflow in the C, oracle only)')
+            continue
+        if (t[1] == 'ok') != (rc == 0):
+            ties.append(('validate', 'size-limit header %s: model %s, tool exit %s (%s)' % (tag, t[1], rc, classes), replay))
+        elif rc != 0 and classes and t[1] != classes[-1]:
+            ties.append(('validate-class', 'size-limit header %s: model %s, tool message class %s' % (tag, t[1], classes), replay))
+        if not lib_ok and rc == 0:
+            ties.append(('vlens-library', 'size-limit header %s: ncvalidator accepts, ncmpi_open returns %s' % (tag, so[3] if so else None), replay))
+    for fmt, pat, hb, (rc, classes, txt) in vl_libres:
+        t = ans[('VLL', fmt, pat)].split()
+        evals[0] += 1
+        count('vlens library-created ' + ('accepted' if rc == 0 else 'rejected'))
+        replay = dict(fmt=fmt, pattern=pat, script=vl_prog.text(), validator_output=txt[-400:], model=t[1])
+        if rc != 0:
+            fail('validator-rejects-library-file', 'ncvalidator rejects a file the library created (variables around the size limit, pattern %s): %s' % (pat, txt[-200:]), replay)
+        if (t[1] == 'ok') != (rc == 0):
+            ties.append(('validate', 'library-created size-limit file %d:%s: model %s, tool exit %s' % (fmt, pat, t[1], rc), replay))
     # byte variants
     for i, (bi, cls, expect, vb) in enumerate(variants):
         rc, classes, txt = vres[i]
